@@ -212,7 +212,7 @@ def NAcc.ofString (s : String) : NAcc :=
 def Note.str (n : Note) : String :=
   if n.acc = .natural then n.name.str else n.name.str ++ n.acc.str true
 
-/-- `note.ParseNote`: first match of `([A-G])([#b]?)` anywhere in the string -/
+/-- `note.ParseNote`: first match of `([A-G])([#b♯♭]?)` anywhere in the string (the Unicode signs since the D25 fix) -/
 def parseNote (s : List Char) : Option Note :=
   match s.dropWhile (fun c => !("ABCDEFG".toList.contains c)) with
   | [] => none
@@ -221,6 +221,8 @@ def parseNote (s : List Char) : Option Note :=
     match rest with
     | '#' :: _ => some ⟨name, NAcc.ofString "#"⟩
     | 'b' :: _ => some ⟨name, NAcc.ofString "b"⟩
+    | '♯' :: _ => some ⟨name, NAcc.ofString "♯"⟩
+    | '♭' :: _ => some ⟨name, NAcc.ofString "♭"⟩
     | _ => some ⟨name, .natural⟩
 
 /-! ## name.go: `Name.GetDegree` (letter distance through the ring) -/
